@@ -20,10 +20,10 @@ LEVEL_NOTE = "Trusts vmon/ref/timeline.py and the cell renderer of vmon/gen/note
 RULE = c11.RULE + " For time_notes each case carries a generated chart (1-3 players, keysounds) with notes on event beats, +-1 tick, inside warps."
 EXHAUSTIVE_PART = c11.EXHAUSTIVE_PART + "; hittable on every tick from beat -1 to beat 9"
 ASSUMPTIONS = ["exact rational timeline is the specification", "NoteData decodes the generated text (C07)"]
-MONITORS = ["hittable", "time_notes", "order_independence", "timing_data_reused"]
+MONITORS = ["hittable", "hittable_off_grid", "time_notes", "order_independence", "timing_data_reused"]
 REQUIRED = ["routine_tap_in_warp", "keysounded_tap_in_warp", "pause_in_warp_note", "non_tap_in_warp",
             "stop_inside_warp", "delay_inside_warp", "three_warps_one_union", "two_unhittable_notes_across_pause", "corpus",
-            "off_grid_note_right_after_a_pause", "more_than_16_separate_warp_segments"]
+            "off_grid_note_right_after_a_pause", "more_than_16_separate_warp_segments", "off_grid_query_inside_warp"]
 TICK = Fraction(1, 48)
 
 
@@ -152,6 +152,29 @@ def check(ctx, case):
         ctx.mon("order_independence")
         if first[k] is not got:
             ctx.violation("hittable:depends-on-query-order", {"beat_ticks": k, "shuffled": repr(first[k]), "sorted": repr(got)})
+            break
+
+    # ---- hittable between ticks: the rule speaks of "a beat", and note data with 64, 128, 200 ... rows per measure puts
+    # notes between ticks. Asked less than a tick before and after every pause, warp start and warp end.
+    offs = (Fraction(1, 64), Fraction(1, 200), Fraction(1, 1000), Fraction(1, 49), Fraction(47, 48 * 48))
+    pts = {k for key in ("stops", "delays", "warps") for k, _ in timing[key]} | {k + l for k, l in timing["warps"]}
+    pts = sorted(pts) if len(pts) <= 24 else rng.sample(sorted(pts), 24)
+    done = False
+    for k in pts:
+        for d in offs:
+            for x in (Fraction(k, 48) + d, Fraction(k, 48) - d):
+                ctx.mon("hittable_off_grid")
+                got = eng.hittable(Beat(x))
+                want = tl.hittable(x)
+                if tl.in_warp(x):
+                    ctx.feat("off_grid_query_inside_warp")
+                if got is not want:
+                    ctx.violation("hittable:differs-between-ticks", {"beat": str(x), "nearest_event_tick": k, "got": repr(got), "want": want, "timing": timing})
+                    done = True
+                    break
+            if done:
+                break
+        if done:
             break
 
     # ---- time_notes
